@@ -84,6 +84,26 @@ pub assume_specification<'a, T, B: Ord, F: FnMut(&'a T) -> B> [<[T]>::binary_sea
                 });
 pub open spec fn bsearch_keys<B>(ks: Seq<B>, n: int) -> bool { ks.len() == n }
 
+pub open spec fn ord_rev(o: core::cmp::Ordering) -> core::cmp::Ordering {
+    match o { core::cmp::Ordering::Less => core::cmp::Ordering::Greater, core::cmp::Ordering::Equal => core::cmp::Ordering::Equal, core::cmp::Ordering::Greater => core::cmp::Ordering::Less }
+}
+pub open spec fn ord_then(a: core::cmp::Ordering, b: core::cmp::Ordering) -> core::cmp::Ordering {
+    match a { core::cmp::Ordering::Equal => b, _ => a }
+}
+pub assume_specification [<core::cmp::Ordering as PartialEq>::eq] (a: &core::cmp::Ordering, b: &core::cmp::Ordering) -> (r: bool)
+    ensures r == (*a == *b);
+pub assume_specification [core::cmp::Ordering::reverse] (o: core::cmp::Ordering) -> (r: core::cmp::Ordering)
+    ensures r == ord_rev(o);
+pub assume_specification [core::cmp::Ordering::then] (a: core::cmp::Ordering, b: core::cmp::Ordering) -> (r: core::cmp::Ordering)
+    ensures r == ord_then(a, b);
+
+/// std BinaryHeap: abstract here (its operations are only used by the unverified MergerIter for now)
+#[verifier::external_type_specification]
+#[verifier::external_body]
+#[verifier::accept_recursive_types(T)]
+#[verifier::reject_recursive_types(A)]
+pub struct ExBinaryHeap<T, A: core::alloc::Allocator>(std::collections::BinaryHeap<T, A>);
+
 // --- [u8] comparison is lexicographic byte order (std documentation) ---
 pub broadcast axiom fn axiom_slice_u8_ord(a: &[u8], b: &[u8])
     ensures
